@@ -112,15 +112,15 @@ class CumsumBiggest(Contract):
         return {"confirmed": bad is not None, "detail": f"counterexample {bad}" if bad else "200 random arrays satisfy content/tight/order/last/warn"}
 
 
-def _cap_cases():
+def _cap_cases(dims=(2, 3)):
     cases = []
-    for co in structures((2, 3)):
+    for co in structures(dims):
         for d in range(len(co)):
             cases.append(dict(co=co, dist_idx=d))
     return cases
 
 
-@contract(HD + ".cell_averaged_pdf", ["C02"], _cap_cases(), name="hdc.cell_averaged_pdf")
+@contract(HD + ".cell_averaged_pdf", ["C02"], _cap_cases(), name="hdc.cell_averaged_pdf", thorough_cases=_cap_cases((4,)))
 class CellAveragedPdf(Contract):
     """cell probabilities are the documented CDF differences of the (conditional) distribution: for cell centre c
     and conditioning cell centre g:  (F(c + dx/2 | g) - F(c - dx/2 | g)) / dx, laid out on the variable's own axis
@@ -299,7 +299,8 @@ class HdcComputeRegion(Contract):
             cx.oblige("post.full_structure.ones", t if T.sort_of(t) == "bool" else T.eq(t, 1), "post", "all 3^n - 1 neighbours count (full structure)")
 
 
-@contract(HD + ".cell_averaged_joint_pdf", ["C02"], [dict(co=co) for co in structures((2, 3))], name="hdc.cell_averaged_joint_pdf")
+@contract(HD + ".cell_averaged_joint_pdf", ["C02"], [dict(co=co) for co in structures((2, 3))], name="hdc.cell_averaged_joint_pdf",
+          thorough_cases=[dict(co=co) for co in structures((4,))])
 class CellAveragedJoint(Contract):
     """joint cell-averaged density = broadcast product of the per-variable cell-averaged densities, every variable
     exactly once"""
@@ -424,7 +425,8 @@ def _inside(shape, c):
     return T.land(*[T.land(T.ge(ci, 0), T.lt(ci, e)) for ci, e in zip(c, shape)])
 
 
-@contract(HD + "._compute", ["C15"], [dict(nd=nd, reach="reached", deltas="list", modes=m) for nd in (2, 3) for m in (1, 2)], name="hdc.compute.boundary")
+@contract(HD + "._compute", ["C15"], [dict(nd=nd, reach="reached", deltas="list", modes=m) for nd in (2, 3) for m in (1, 2)], name="hdc.compute.boundary",
+          thorough_cases=[dict(nd=nd, reach="reached", deltas="list", modes=m) for nd, m in ((2, 3), (3, 3), (2, 4), (4, 1), (4, 2))])
 class HdcComputeBoundary(HdcComputeRegion):
     """_compute from the region to the coordinates, against the contracts of scipy.ndimage (assumed):
     binary_erosion(R, S)[c] <=> every S-neighbour of c lies in the grid and in R;  label(B, S) numbers the connected
